@@ -102,6 +102,7 @@ BadDocs ==
     <<ObjectD("-lead", <<>>, <<FieldD("x", I, <<>>)>>)>>, <<ObjectD("Ok7", <<>>, <<FieldD("$x", I, <<>>)>>)>>, <<EnumD("Ok8", <<EV("P"), EV("%V")>>)>>,
     <<DirectiveD("-d", <<>>, <<"OBJECT">>)>>, <<ObjectD("Ok9", <<>>, <<FieldD("y", I, <<ArgD("-a", I)>>)>>)>>, <<InputD("Ok10", <<ArgD("f", I), ArgD("a-b", I)>>)>>,
     <<DirectiveD("ok11", <<ArgD("-a", I)>>, <<"OBJECT">>)>>,
+    <<ObjectD("{OMEGA}mega", <<>>, <<FieldD("x", I, <<>>)>>)>>, <<ObjectD("Ok12", <<>>, <<FieldD("caf{E}", I, <<>>)>>)>>,
     <<DMut2, FEmpty>>, <<DSub, FInOut>>, <<XQuery, XQuery2, FEmpty>>, <<XE, XE2, FXNotFound>>, <<XIn, XIn2, FXDupField>> }
 G1 == <<DQuery, DA, DB, DN>>
 G2 == <<DU1, DE, DIn>>
